@@ -1197,13 +1197,20 @@ func (m *repoManager) saveRepoByVersion(v dvid.VersionID) error {
 
 // types returns a list of TypeService needed for this set of repositories
 func (m *repoManager) types() (map[dvid.URLString]TypeService, error) {
+	// The roots are copied under idMutex, which is released before a repo's own lock is taken:
+	// newVersion takes idMutex while it holds a repo's lock.
 	m.idMutex.RLock()
-	defer m.idMutex.RUnlock()
+	roots := make(map[dvid.RepoID]dvid.UUID, len(m.repoToUUID))
+	for repoID, root := range m.repoToUUID {
+		roots[repoID] = root
+	}
+	m.idMutex.RUnlock()
+
 	m.repoMutex.RLock()
 	defer m.repoMutex.RUnlock()
 
 	combinedMap := make(map[dvid.URLString]TypeService)
-	for repoID, root := range m.repoToUUID {
+	for repoID, root := range roots {
 		repo, found := m.repos[root]
 		if !found {
 			return nil, fmt.Errorf("could not find repo %s (repo ID %d)", root, repoID)
